@@ -189,6 +189,63 @@ def from_wire(j):
 
 
 
+def run_preempted(call_a, call_b, want_b, max_points=200, lines=False):
+    """Deterministic pre-emption: call_a() runs traced, and at evenly spread trace points inside the package's own code
+    (function entries; with lines=True also lines) call_b() — another party's whole call — runs before A continues.
+    -> (what call_a returned or ["raise", class], the first result of call_b that differs from want_b or None, points used).
+    Whatever B leaves in shared, non-thread-local state (a module-level parser, a scratch slot) reaches A, and vice versa."""
+    import openjd.model as _pkg
+    root = str(Path(_pkg.__file__).resolve().parent)
+    events = ("call", "line") if lines else ("call",)
+    count = [0]
+
+    def counter(frame, event, arg):
+        if frame.f_code.co_filename.startswith(root):
+            if event in events:
+                count[0] += 1
+            return counter if lines else None
+        return None
+    sys.settrace(counter)
+    try:
+        try:
+            call_a()
+        except BaseException:  # noqa: BLE001
+            pass
+    finally:
+        sys.settrace(None)
+    stride = max(1, count[0] // max_points)
+    seen, busy, odd = [0], [False], [None]
+
+    def tracer(frame, event, arg):
+        if not frame.f_code.co_filename.startswith(root):
+            return None
+        if event in events:
+            seen[0] += 1
+            if seen[0] % stride == 0 and not busy[0]:
+                busy[0] = True
+                sys.settrace(None)
+                try:
+                    try:
+                        rb = call_b()
+                    except BaseException as e:  # noqa: BLE001
+                        rb = ["raise", type(e).__name__]
+                    if rb != want_b and odd[0] is None:
+                        odd[0] = [seen[0], rb]
+                finally:
+                    busy[0] = False
+                    sys.settrace(tracer)
+        return tracer if lines else None
+    sys.settrace(tracer)
+    try:
+        try:
+            ra = call_a()
+        except BaseException as e:  # noqa: BLE001
+            ra = ["raise", type(e).__name__]
+    finally:
+        sys.settrace(None)
+    return ra, odd[0], min(count[0], max_points)
+
+
 class Driver:
     """One extracted-model process; batch request/reply."""
 
